@@ -154,17 +154,18 @@ Definition api_visit (req: list N) : str :=
   end.
 
 (* ---- whole parser ------------------------------------------------------------------ *)
-Definition pos := (N * N)%type.
+Definition pos := (str * (N * N))%type.   (* provenance: file name, (line, column) *)
+Definition fpos (f: str) : pos := (f, (0, 0)).
 
 Definition to_pitem (i: raw_item) : pitem pos :=
   match i with
-  | RTok k v line col f => PTok pos k v (line, col) f
-  | RErr msg line col f => PErr pos msg (line, col) f
+  | RTok k v line col f => PTok pos k v (f, (line, col)) (fpos f)
+  | RErr msg line col f => PErr pos msg (f, (line, col)) (fpos f)
   | RCrash => PCrash pos
   end.
 
 Definition show_coord (c: coord pos) : str :=
-  cfile c ++ [58] ++ dec_of_N (fst (cpos c)) ++ [58] ++ dec_of_N (snd (cpos c)).
+  fst (cfile c) ++ [58] ++ dec_of_N (fst (snd (cpos c))) ++ [58] ++ dec_of_N (snd (snd (cpos c))).
 
 Fixpoint show_ast (fuel: nat) (wc: bool) (v: node pos) : str :=
   match fuel with
@@ -183,7 +184,7 @@ Fixpoint show_ast (fuel: nat) (wc: bool) (v: node pos) : str :=
 Definition show_loc (l: errloc pos) : str :=
   match l with
   | L_coord _ c => show_coord c
-  | L_file _ f => f
+  | L_file _ f => fst f
   | L_raw _ s => s
   | L_none _ => s2l "None"
   end.
@@ -200,7 +201,7 @@ Definition crash_name (k: crash_kind) : str :=
 Definition run_parse (text filename: str) : res pos (node pos * pstate pos) :=
   let '(items, stf, _) := raw_lex (S (length text)) (init_lexst filename) text in
   let fuel := (4 * length items + 3000)%nat in
-  parse_tokens pos fuel (init_pstate pos (map to_pitem items) (l_file stf) filename).
+  parse_tokens pos fuel (init_pstate pos (map to_pitem items) (fpos (l_file stf)) (fpos filename)).
 
 Definition show_result (wc: bool) (r: res pos (node pos * pstate pos)) : str :=
   match r with
